@@ -28,6 +28,7 @@ class InterruptableThread(threading.Thread):
         self.result = None
         self.exc_info = (None, None, None)
         self.terminated = False
+        self.acknowledged = False
 
     def run(self):
         """
@@ -58,26 +59,42 @@ class InterruptableThread(threading.Thread):
     def raise_exception(self, exception):
         """
         Trigger a thread ending exception!
+
+        Returns:
+            bool: Whether the exception could be sent to the (still running) thread.
         """
         if not self.is_alive():
             # The thread may have finished by itself in the meantime
-            return
+            return False
         for thread_id, thread in threading._active.items():
             if thread is self:
                 try:
                     InterruptableThread._async_raise(thread_id, exception)
                 except ValueError:
                     # The thread ended between the check above and here
-                    pass
-                return
+                    return False
+                return True
+        return False
 
     def terminate(self):
         """
+        Gives up on the thread.
 
+        Returns:
+            bool: False if the thread had already finished by itself, in which
+                case nothing was terminated.
         """
-        self.exc_info = sys.exc_info()
+        if not self.is_alive():
+            return False
+        # Mark first: from here on the thread leaves the cleanup to the caller
         self.terminated = True
-        self.raise_exception(SystemExit)
+        if not self.raise_exception(SystemExit) and not self.acknowledged:
+            # It ended before it could notice the mark, so it has done its
+            # own cleanup and recorded whatever happened.
+            self.terminated = False
+            return False
+        self.exc_info = sys.exc_info()
+        return True
 
 
 def was_terminated():
@@ -88,7 +105,12 @@ def was_terminated():
     """
     if threading is None:
         return False
-    return getattr(threading.current_thread(), 'terminated', False)
+    thread = threading.current_thread()
+    if getattr(thread, 'terminated', False):
+        # Let `terminate` know that the cleanup has been left to its caller
+        thread.acknowledged = True
+        return True
+    return False
 
 
 def timeout(duration, func, *args, **kwargs):
@@ -105,8 +127,8 @@ def timeout(duration, func, *args, **kwargs):
     target_thread.start()
     target_thread.join(duration)
 
-    if target_thread.is_alive():
-        target_thread.terminate()
+    # A thread that finishes just as the limit expires completed normally
+    if target_thread.is_alive() and target_thread.terminate():
         timeout_exception = TimeoutError('Your code took too long to run '
                                          '(it was given {} seconds); '
                                          'maybe you have an infinite loop?'.format(duration))
